@@ -149,7 +149,7 @@ def run_shards(prop, tier, seed, binpath, extra_env=None, run_filter=None, nshar
 
 def merge(wd, n):
     tot = dict(evaluations=0, hashes=set(), samples=[], classes={}, excluded={}, violations=[], known={}, notes=[],
-               exhaustive={}, rapid_passed={}, rules=[], missing=[])
+               exhaustive={}, rapid_passed={}, rules=[], missing=[], distinct={})
     for i in range(n):
         p = os.path.join(wd, "stats.%d.json" % i)
         if not os.path.exists(p):
@@ -170,6 +170,8 @@ def merge(wd, n):
         for x in s.get("notes") or []:
             if x not in tot["notes"]:
                 tot["notes"].append(x)
+        for a, b in (s.get("distinct_sets") or {}).items():
+            tot["distinct"].setdefault(a, set()).update(b)
         for a, b in (s.get("exhaustive") or {}).items():
             tot["exhaustive"][a] = tot["exhaustive"].get(a, True) and b
     return tot
@@ -193,6 +195,7 @@ def write_evidence(prop, tier, seed, tot, wall, nviol, extra=None):
         "classes": dict(sorted(tot["classes"].items())),
         "excluded_by_construction": dict(sorted(tot["excluded"].items())),
         "known_findings_reproduced": tot["known"],
+        "distinct_counts": {k: len(v) for k, v in sorted(tot["distinct"].items())},
         "exhaustive_parts": tot["exhaustive"],
         "notes": tot["notes"],
     }
